@@ -337,6 +337,10 @@ bool Terminal::Impl::executeRunHistoryCmd(SessionContext *s, const Args &args)
 {
     string sub_cmd = args[0].substr(1);
     if (sub_cmd == "!") {
+        if (s->history.empty()) {
+            s->wp_conn->send(s->token, "Error: index out of range.\r\n");
+            return false;
+        }
         s->curr_input = s->history.back();
         return execute(s);
     }
